@@ -1,4 +1,6 @@
 """C12 — body extractors never accept or buffer more than their limit."""
+import os
+
 from ..rules import *  # noqa
 
 EXPLANATION = (
@@ -59,6 +61,28 @@ def ident(e):
     return None
 
 
+def configured_limit(b, rhs, prog=None, depth=3):
+    """the bound of the comparison is the configured limit itself: a field of the extractor / its config, a
+    parameter, or a captured variable that is one of those in the enclosing frame — not a value that some path
+    replaces by a constant (e.g. usize::MAX when a Content-Length was declared) and not a computed one"""
+    e = rhs
+    while isinstance(e, tuple) and e[0] == "cast":
+        e = e[1]
+    if e[0] == "arg":
+        return True
+    if e[0] == "place":
+        if any(x[0] == "const" for x in walk(e)) or e_bins(e) or any(x[0] == "phi" for x in walk(e)):
+            return False
+        ups = [p_ for p_ in e[2] if isinstance(p_, str) and p_.startswith(".^")]
+        if ups and prog is not None and depth > 0:
+            r = prog.upvar(b, ups[0])
+            if r is None:
+                return False
+            return configured_limit(r[0], r[1], prog, depth - 1)
+        return True
+    return False
+
+
 def same_root(b, e1, op):
     """does expression e1 denote the same object as operand `op`?"""
     e2 = core_expr(b.op_expr(op))
@@ -114,8 +138,14 @@ def run(ck, prog, tier, load):
             ls = lens_of(lhs)
             has_acc = any(a is not None and same_root(b, a, acc_op) for n_, a in ls)
             has_chunk = any(a is not None and same_root(b, a, chunk_op) for n_, a in ls)
-            return has_acc and has_chunk and not lens_of(rhs)
+            if has_acc and has_chunk and not lens_of(rhs):
+                seen_rhs.append(rhs)
+                return configured_limit(b, rhs, prog)
+            return False
+        seen_rhs = []
         ok, wit = guarded_by(b, bb, lim_pred)
+        if os.environ.get("AVLINT_C12_RHS"):
+            print("C12 rhs:", fn, [short(x, 4) for x in seen_rhs][:2], [x[0] for x in seen_rhs][:2])
         detail = "append dominated by the passing edge of `acc.len() + chunk.len() > limit` measuring this accumulator and this chunk"
         if ok:
             # overflow edge discipline
@@ -160,20 +190,34 @@ def run(ck, prog, tier, load):
         ck.anchor("C12-a", len(inner), 1, "poll_fn closure with the append in %s" % o.npath)
         for c in inner:
             app = [bb for bb, t in c.calls(APPEND)]
-            # upvar flag writes
-            fw = [(bb, s) for bb, i, s in c.assigns() if any(isinstance(x, str) and rx(r"^\.\^(_ref__)?exceeded_limit$").search(x) for x in s["p"][1:])]
-            only_true = all(c.rv_expr(s["rv"], 3)[:3] == ("const", None, 1) for bb, s in fw)
+            # the overflow flag: a bool variable of the outer future, captured by the poll_fn closure and written there
+            def flag_proj(x):
+                if not (isinstance(x, str) and x.startswith(".^")):
+                    return None
+                up = prog.upvar(c, x)
+                if up and up[0] is o and up[1][0] in ("var", "phi") and o.lty(up[1][1]) == "bool":
+                    return up[1][1]
+                # captured by reference: the operand is `&mut flag`
+                if up and up[0] is o:
+                    bl = [r[1] for r in e_roots(up[1]) if r[0] in ("var", "phi") and o.lty(r[1]) == "bool"]
+                    return bl[0] if bl else None
+                return None
+            fw = [(bb, s, [flag_proj(x) for x in s["p"][1:] if flag_proj(x) is not None]) for bb, i, s in c.assigns()]
+            fw = [(bb, s, ls) for bb, s, ls in fw if ls]
+            FL = set(l for bb, s, ls in fw for l in ls)
+            FLP = set(x.split(":")[0] for bb, s, ls in fw for x in s["p"][1:] if isinstance(x, str) and x.startswith(".^") and flag_proj(x) is not None)
+            only_true = all(c.rv_expr(s["rv"], 3)[:3] == ("const", None, 1) for bb, s, ls in fw)
             ck.ob("C12-a.sticky-flag", o.npath.split("::")[-2] + "|set-only", bool(fw) and only_true, c, fw[0][0] if fw else None, "the overflow flag is only ever set to true inside the collecting loop (never recomputed or cleared)")
             # the Ok result of the outer future is guarded by the flag being false
             lim_err = [bb for bb, e in o.ret_exprs() if any(is_agg(x, r"(BodyLimitExceeded|LimitExceeded)$") for x in walk(e))]
             pf = [x for x, t2 in o.calls(r"poll_fn::poll_fn$")]
             oks = [bb for bb, e in o.ret_exprs() if agg_chain(e)[0][:2] == ["core::result::Result::Ok", "core::result::Result::Ok"] and any(o.dominates(x, bb) for x in pf)]
-            g = all(guarded_by(o, bb, var_is(o, None, False, name="exceeded_limit"))[0] for bb in oks) and bool(oks) and bool(lim_err)
+            g = bool(FL) and all(guarded_by(o, bb, lambda cc, lab: bool(bool_test(cc, lab)) and is_local(bool_test(cc, lab)[0], FL) and bool_test(cc, lab)[1] is False)[0] for bb in oks) and bool(oks) and bool(lim_err)
             ck.ob("C12-a.sticky-flag", o.npath.split("::")[-2] + "|selects-error", g, o, oks[0] if oks else None, "the collected bytes are returned only with the overflow flag false; otherwise the limit error")
             # once exceeded, nothing is appended any more (Field::bytes keeps draining): append guarded by flag false or loop left
             for bb in app:
-                leaves = all(c.reach([x]) & set(app) == set() for x, s in fw)
-                gflag = guarded_by(c, bb, lambda cc, lab: isinstance(lab, bool) and any(isinstance(p, str) and rx(r"^\.\^(_ref__)?exceeded_limit$").search(p) for y in walk(strip_not(cc)[0]) if y[0] == "place" for p in y[2]) and (lab if strip_not(cc)[1] else not lab) is False)[0]
+                leaves = all(c.reach([x]) & set(app) == set() for x, s, ls in fw)
+                gflag = guarded_by(c, bb, lambda cc, lab: isinstance(lab, bool) and any(isinstance(p, str) and p.split(":")[0] in FLP for y in walk(strip_not(cc)[0]) if y[0] == "place" for p in y[2]) and (lab if strip_not(cc)[1] else not lab) is False)[0]
                 ck.ob("C12-a.sticky-flag", o.npath.split("::")[-2] + "|no-append-after-overflow", leaves or gflag, c, bb, "after the flag is set no further chunk is appended (loop left: %s; append guarded by !flag: %s)" % (leaves, gflag))
 
     # ---- budget call body ---------------------------------------------------------------
@@ -186,7 +230,7 @@ def run(ck, prog, tier, load):
                 continue
             ck.ob("C12-a.budget-writer", bd.npath, False, bd, bb, "remaining budget written outside try_consume_limits/new: %s" % bd.npath)
             continue
-        ok = bool(e_calls(e, r"checked_sub$")) and any(any(r[0] == "arg" and r[2] == "bytes" for r in e_roots(c)) for c in e_calls(e, r"checked_sub$"))
+        ok = bool(e_calls(e, r"checked_sub$")) and any(root_is(c, args_of_type(tcl, r"^usize$")) for c in e_calls(e, r"checked_sub$"))
         fld = [x for x in s["p"][1:] if isinstance(x, str)][-1].rsplit(".", 1)[-1]
         ck.ob("C12-a.budget-update", fld, ok, tcl, bb, "Limits.%s is updated only as remaining.checked_sub(bytes)" % fld)
     errs = [bb for bb, e in tcl.ret_exprs() if e[0] == "call" and rx("from_residual").search(e[1] or "")]
@@ -202,7 +246,16 @@ def run(ck, prog, tier, load):
                 lim = c.op_expr(t["args"][1])
                 if e_bins(lim) or e_calls(lim):
                     continue  # the limit must be handed through unchanged
-                ok = ok or any((r[0] == "arg" and r[2] == "limit") for r in e_roots(lim)) or any(isinstance(p, str) and rx(r"^\.\^(_ref__)?limit$").search(p) for x in walk(lim) if x[0] == "place" for p in x[2])
+                lim_args = set(args_of_type(b, r"^usize$"))
+                direct = c is b and any(r[0] == "arg" and r[1] in lim_args for r in e_roots(lim))
+                via_up = False
+                for x in walk(lim):
+                    if x[0] == "place":
+                        for p_ in x[2]:
+                            up = prog.upvar(c, p_) if isinstance(p_, str) and p_.startswith(".^") else None
+                            if up and up[0] is b and up[1][0] == "arg" and up[1][1] in lim_args:
+                                via_up = True
+                ok = ok or direct or via_up
     ck.ob("C12-a.delegation", "web::Payload::to_bytes_limited", ok, wp[0] if wp else None, None, "delegates to body::to_bytes_limited passing its own `limit` through unchanged")
     for nm in ("text::Text", "json::Json"):
         bs = [b for b in prog.find(r"actix_multipart::form::%s<T> as actix_multipart::form::FieldReader<'t>>::read_field" % nm)]
